@@ -402,7 +402,18 @@ Scenario generate(const std::string& prop, uint64_t seed, const std::string& tie
         }
     } else if (!rebuildHistory && (prop == "C03" || prop == "C02" || prop == "C15" || prop == "C09")) {
         const int hk = int(r.below(10));
-        if (hk < 6) sc.history.push_back(full);
+        if (prop != "C09" && !numeric && r.chance(0.1)) {
+            // one executor object reused for 2-4 calls with arbitrary flag sets (the sequential twin runs the same calls): whatever an
+            // executor remembers from one call to the next must not change what a later call does
+            const int calls = 2 + int(r.below(3));
+            for (int c = 0; c < calls; ++c) {
+                HistOp e = full;
+                const int pick = int(r.below(6));
+                e.flags = pick == 0 ? F_ALL : (pick == 1 ? (F_P2M | F_M2M | F_M2L) : (pick == 2 ? (F_M2L | F_L2L | F_L2P) : (pick == 3 ? F_M2L : int(1 + r.below(63)))));
+                sc.history.push_back(e);
+            }
+        }
+        else if (hk < 6) sc.history.push_back(full);
         else if (hk < 8) {   // documented three-stage split
             HistOp a = full, b = full, c = full;
             a.flags = F_P2M | F_M2M; b.flags = F_M2L | F_P2P; c.flags = F_L2L | F_L2P;
@@ -509,6 +520,28 @@ Scenario generate(const std::string& prop, uint64_t seed, const std::string& tie
         sc.history.push_back(r.chance(0.5) ? p2p : full);
         toBox(sc, sc.src); toBox(sc, sc.tgt);
     }
+    if (scale == 3 && (prop == "C18" || prop == "C03" || prop == "C02")) {
+        // very many groups per level: block size 1 with more than a thousand occupied leaves (search structures over the group lists)
+        sc.ordering = "morton";
+        sc.kernel = (prop == "C18") ? "counter_weight" : "weight";
+        sc.executor = r.chance(0.8) ? "seq" : "omp";
+        sc.upper = 2; sc.upperDefault = false; sc.topLevels = -2; sc.oneGroupPerParent = r.chance(0.3);
+        sc.tgt.clear(); sc.src.clear();
+        for (int d = 0; d < 3; ++d) { sc.width[size_t(d)] = 1.0; sc.centre[size_t(d)] = 0.5; }
+        sc.threadsCtor = sc.threadsExec = 1 + int(r.below(8));
+        sc.height = 5;
+        const long cells = 16, want = 1100 + long(r.below(500));
+        std::set<long> used;
+        while (long(used.size()) < want) used.insert(long(r.below(uint64_t(cells * cells * cells))));
+        for (long c : used) {
+            const long x = c / (cells * cells), y = (c / cells) % cells, z = c % cells;
+            sc.src.push_back({{(double(x) + 0.5) / double(cells), (double(y) + 0.5) / double(cells), (double(z) + 0.5) / double(cells)}});
+        }
+        sc.blockSize = 1;
+        sc.history.clear();
+        sc.history.push_back(full);
+        toBox(sc, sc.src);
+    }
     if (scale == 1 || scale == 2) {
         sc.ordering = "morton";
         sc.kernel = (prop == "C18") ? "counter_weight" : "weight";
@@ -529,9 +562,10 @@ Scenario generate(const std::string& prop, uint64_t seed, const std::string& tie
                 const long x = c / (cells * cells), y = (c / cells) % cells, z = c % cells;
                 sc.src.push_back({{(double(x) + 0.5) / double(cells), (double(y) + 0.5) / double(cells), (double(z) + 0.5) / double(cells)}});
             }
-            sc.blockSize = r.chance(0.7) ? 10000000 : 40000;
+            // variant (seed bit 12; a batch forces both): one group per level / several groups of thousands of cells
+            { static const long one[] = {10000000, 40000}; static const long many[] = {12000, 5000, 9000}; sc.blockSize = ((seed >> 12) & 1) ? many[r.below(3)] : one[r.below(2)]; }
             sc.history.clear();
-            sc.history.push_back((!plainFlavour || r.chance(0.5)) ? p2p : full);
+            sc.history.push_back(((!plainFlavour || r.chance(0.5)) && prop != "C18") ? p2p : full);
         } else {
             // crowded leaves: particle-pair counts beyond 2^31 in a single near-field call
             sc.height = 2 + int(r.below(2));
